@@ -16,7 +16,7 @@ PROPS = {
     "C02": dict(title="iteration complete, duplicate-free, sorted", families=[("tree:iter", 16, 160, 120, 22)],
                 corr={"ALL", "BWD"}, oracle={"ALL", "BWD"}, theorem="Properties/C02.v"),
     "C03": dict(title="Range exact", families=[("tree:range", 16, 160, 120, 22)],
-                corr={"RNG"}, oracle={"RNG"}, theorem="Properties/C03.v", corpus=["D4", "D5"]),
+                corr={"RNG"}, oracle={"RNG"}, theorem="Properties/C03.v", corpus=["D4", "D5", "D12", "D13"]),
     "C04": dict(title="Prefix exact", families=[("tree:prefix:alpha", 10, 100, 120, 22), ("tree:prefix:coll", 6, 60, 100, 14)],
                 corr={"PFX"}, oracle={"PFX"}, theorem="Properties/C04.v", corpus=["D6a", "D6b", "D6c"]),
     "C05": dict(title="Minimum/Maximum/TopK/BottomK", families=[("tree:extremes", 16, 160, 120, 22)],
